@@ -1,1 +1,1013 @@
-// Correspondence suites for property C10. Each suite is a #[test] fn named verif_c10_<suite>.
+// Correspondence suites for property C10 (encrypted reports decrypt only if untouched; bad input
+// never crashes a helper). Each suite is a #[test] fn named verif_c10_<suite>.
+//
+// Request grammar (TY = `8_3` for <BA8,BA3> as used by query/runner/hybrid.rs, `32_7` for <BA32,BA7>):
+//   c10.parse  TY REG LOG RECORD        try_from(Bytes) + decrypt of one record
+//   c10.flip   TY REG LOG RECORD BIT    the same on RECORD with bit BIT (0 = lsb of byte 0) flipped
+//   c10.rt     TY KIND KEYID REG MK BTT SITE TS EPS SENS SEED   real encrypt -> try_from -> decrypt
+//   c10.info   imp|conv BYTES           Hybrid*Info::from_bytes
+//   c10.infonew KEYID SITE TS EPS SENS  HybridConversionInfo::new + to_bytes + from_bytes
+//   c10.stream TY REG LOG CHUNKS        LengthDelimitedStream -> try_flatten_iters -> decrypt (as Query::execute)
+// REG  = comma list of base-key indices; position in the list = key id of the helper's registry (`-` = no keys)
+// LOG  = comma list of `k:info:plain:enc:ct` = everything that was ever sealed (k = base-key index);
+//        this is the table of the ideal AEAD against which the model decides `open`.
+// Bytes are lowercase hex (`-` = empty). EPS/SENS are f64 bit patterns (decimal u64).
+// Responses: `ok imp MK BTT KEYID` | `ok conv MK BTT KEYID SITE TS EPS SENS` | `err <kind> …` | `panic:…`.
+use std::sync::OnceLock;
+
+use bytes::Bytes;
+use futures::{StreamExt, TryStreamExt};
+use generic_array::GenericArray;
+
+use super::proto::*;
+use crate::{
+    error::{BoxError, Error},
+    ff::{
+        Serializable,
+        boolean_array::{BA3, BA7, BA8, BA32, BA64},
+    },
+    helpers::{BodyStream, LengthDelimitedStream, stream::TryFlattenItersExt},
+    hpke::{
+        CryptError, IpaPrivateKey, IpaPublicKey, KeyPair, KeyRegistry, PrivateKeyRegistry,
+        PublicKeyRegistry, Serializable as _, seal_in_place,
+    },
+    report::{
+        hybrid::{
+            EncryptedHybridReport, HybridConversionReport, HybridImpressionReport, HybridReport,
+            InvalidHybridReportError,
+        },
+        hybrid_info::{HybridConversionInfo, HybridImpressionInfo},
+    },
+    secret_sharing::replicated::semi_honest::AdditiveShare as Replicated,
+};
+
+const N_BASE_KEYS: usize = 4;
+
+/// The fixed key pairs all suites use (independent of VERIF_SEED so that recorded requests replay).
+fn base_keys() -> &'static Vec<(IpaPrivateKey, IpaPublicKey)> {
+    static KEYS: OnceLock<Vec<(IpaPrivateKey, IpaPublicKey)>> = OnceLock::new();
+    KEYS.get_or_init(|| {
+        let mut rng = Rng(0x00C1_0C10_0C10_0C10);
+        let reg = KeyRegistry::<KeyPair>::random(N_BASE_KEYS, &mut rng);
+        (0..N_BASE_KEYS)
+            .map(|i| {
+                let id = u8::try_from(i).unwrap();
+                (
+                    reg.private_key(id).unwrap().clone(),
+                    reg.public_key(id).unwrap().clone(),
+                )
+            })
+            .collect()
+    })
+}
+
+/// A helper's key registry: key id = position in the list.
+struct Reg(Vec<(IpaPrivateKey, IpaPublicKey)>);
+
+impl Reg {
+    fn parse(s: &str) -> Self {
+        Reg(parse_nat_list::<usize>(s)
+            .into_iter()
+            .map(|i| base_keys()[i].clone())
+            .collect())
+    }
+}
+
+impl PrivateKeyRegistry for Reg {
+    fn private_key(&self, key_id: u8) -> Option<&IpaPrivateKey> {
+        self.0.get(usize::from(key_id)).map(|k| &k.0)
+    }
+}
+
+impl PublicKeyRegistry for Reg {
+    fn public_key(&self, key_id: u8) -> Option<&IpaPublicKey> {
+        self.0.get(usize::from(key_id)).map(|k| &k.1)
+    }
+}
+
+fn ser<T: Serializable>(x: &T) -> String {
+    let mut b = GenericArray::<u8, T::Size>::default();
+    x.serialize(&mut b);
+    hex(&b)
+}
+
+fn conv_info_str(i: &HybridConversionInfo) -> String {
+    format!(
+        "{} {} {} {} {}",
+        i.key_id,
+        hex(i.conversion_site_domain.as_bytes()),
+        i.timestamp,
+        i.epsilon.to_bits(),
+        i.sensitivity.to_bits()
+    )
+}
+
+fn err_str(e: &InvalidHybridReportError) -> String {
+    match e {
+        InvalidHybridReportError::NonAsciiString(_) => "err nonascii".into(),
+        InvalidHybridReportError::Crypt(CryptError::NoSuchKey(k)) => format!("err nosuchkey {k}"),
+        InvalidHybridReportError::Crypt(CryptError::Other) => "err crypt".into(),
+        InvalidHybridReportError::DeserializationError(f, _) => {
+            format!("err deser {}", f.replace(' ', "_"))
+        }
+        InvalidHybridReportError::Length(a, b) => format!("err length {a} {b}"),
+        InvalidHybridReportError::UnknownEventType(v) => format!("err eventtype {v}"),
+        InvalidHybridReportError::WrongInfoType(_) => "err wronginfotype".into(),
+    }
+}
+
+fn flip(mut v: Vec<u8>, bit: usize) -> Vec<u8> {
+    v[bit / 8] ^= 1 << (bit % 8);
+    v
+}
+
+fn parse_chunks(s: &str) -> Vec<Vec<u8>> {
+    if s == "-" {
+        return vec![];
+    }
+    s.split(',').map(|c| unhex(if c == "e" { "-" } else { c })).collect()
+}
+
+fn f64_of(s: &str) -> f64 {
+    f64::from_bits(s.parse::<u64>().unwrap())
+}
+
+macro_rules! impl_ty {
+    ($modname:ident, $bk:ty, $v:ty) => {
+        mod $modname {
+            use super::*;
+            pub type Enc = EncryptedHybridReport<$bk, $v>;
+
+            pub fn report_str(r: &HybridReport<$bk, $v>) -> String {
+                match r {
+                    HybridReport::Impression(i) => format!(
+                        "imp {} {} {}",
+                        ser(&i.match_key),
+                        ser(&i.breakdown_key),
+                        i.info.key_id
+                    ),
+                    HybridReport::Conversion(c) => format!(
+                        "conv {} {} {}",
+                        ser(&c.match_key),
+                        ser(&c.value),
+                        conv_info_str(&c.info)
+                    ),
+                }
+            }
+
+            pub fn parse(reg: &Reg, record: Vec<u8>) -> String {
+                match Enc::try_from(Bytes::from(record)) {
+                    Err(e) => err_str(&e),
+                    Ok(r) => match r.decrypt(reg) {
+                        Ok(rep) => format!("ok {}", report_str(&rep)),
+                        Err(e) => err_str(&e),
+                    },
+                }
+            }
+
+            pub const BK_SIZE: usize = <<Replicated<$bk> as Serializable>::Size as typenum::Unsigned>::USIZE;
+            pub const V_SIZE: usize = <<Replicated<$v> as Serializable>::Size as typenum::Unsigned>::USIZE;
+
+            /// Real encryption path followed by the real decryption path.
+            #[allow(clippy::too_many_arguments)]
+            pub fn roundtrip(
+                kind: &str,
+                key_id: u8,
+                reg: &Reg,
+                mk: &[u8],
+                btt: &[u8],
+                site: &[u8],
+                ts: u64,
+                eps: f64,
+                sens: f64,
+                seed: u64,
+            ) -> String {
+                let mut rng = Rng(seed);
+                let match_key = Replicated::<BA64>::deserialize(GenericArray::from_slice(mk)).unwrap();
+                let report: HybridReport<$bk, $v> = if kind == "imp" {
+                    #[allow(irrefutable_let_patterns)]
+                    let Ok(breakdown_key) = Replicated::<$bk>::deserialize(GenericArray::from_slice(btt)) else {
+                        return "err harness-bad-share".into();
+                    };
+                    HybridReport::Impression(HybridImpressionReport { match_key, breakdown_key, info: HybridImpressionInfo::new(key_id) })
+                } else {
+                    let Ok(value) = Replicated::<$v>::deserialize(GenericArray::from_slice(btt)) else {
+                        return "err harness-bad-share".into();
+                    };
+                    let site = std::str::from_utf8(site).expect("harness: site must be UTF-8 to reach HybridConversionInfo::new");
+                    let info = match HybridConversionInfo::new(key_id, site, ts, eps, sens) {
+                        Ok(i) => i,
+                        Err(e) => return err_str(&e.into()),
+                    };
+                    HybridReport::Conversion(HybridConversionReport { match_key, value, info })
+                };
+                let declared = report.encrypted_len();
+                let bytes = match report.encrypt(key_id, reg, &mut rng) {
+                    Ok(b) => b,
+                    Err(e) => return err_str(&e),
+                };
+                // the delimited form must be the 2-byte LE length followed by the same layout
+                let mut delim = Vec::new();
+                report.delimited_encrypt_to(key_id, reg, &mut Rng(seed), &mut delim).unwrap();
+                let delim_ok = delim.len() == bytes.len() + 2
+                    && usize::from(u16::from_le_bytes([delim[0], delim[1]])) == bytes.len()
+                    && delim[2..] == bytes[..];
+                let key_off = bytes.len() - usize::from(match &report {
+                    HybridReport::Impression(i) => u16::try_from(i.info.byte_len()).unwrap(),
+                    HybridReport::Conversion(c) => u16::try_from(c.info.byte_len()).unwrap(),
+                }) - 1;
+                let tail = hex(&bytes[key_off..]);
+                let evt = bytes[0];
+                let out = parse(reg, bytes.clone());
+                // compared through the canonical string: floats by bit pattern (NaN != NaN numerically)
+                let same = match Enc::try_from(Bytes::from(bytes.clone())).and_then(|e| e.decrypt(reg)) {
+                    Ok(r) => report_str(&r) == report_str(&report),
+                    Err(_) => false,
+                };
+                format!("{out} len={} declared={declared} delim={} evt={evt} tail={tail} same={}", bytes.len(), u8::from(delim_ok), u8::from(same))
+            }
+
+            /// Encrypt with the REAL `HybridReport::encrypt` to base key `kid % N_BASE_KEYS` and describe the
+            /// two sealed parts (read back through the real accessors) as log entries.
+            #[allow(clippy::too_many_arguments)]
+            pub fn encrypt_real(evt: u8, kid: u8, mk: &[u8], btt: &[u8], site: &str, ts: u64, eps: u64, sens: u64, rng: &mut Rng) -> (Vec<u8>, Vec<String>) {
+                let match_key = Replicated::<BA64>::deserialize(GenericArray::from_slice(mk)).unwrap();
+                let k = usize::from(kid) % N_BASE_KEYS;
+                let mut keys = vec![base_keys()[0].clone(); usize::from(kid) + 1];
+                keys[usize::from(kid)] = base_keys()[k].clone();
+                let reg = Reg(keys);
+                let (report, info_enc): (HybridReport<$bk, $v>, Vec<u8>) = if evt == 0 {
+                    let info = HybridImpressionInfo::new(kid);
+                    let e = info.to_enc_bytes().to_vec();
+                    (HybridReport::Impression(HybridImpressionReport { match_key, breakdown_key: Replicated::<$bk>::deserialize(GenericArray::from_slice(btt)).unwrap(), info }), e)
+                } else {
+                    let info = HybridConversionInfo { key_id: kid, conversion_site_domain: site.to_string(), timestamp: ts, epsilon: f64::from_bits(eps), sensitivity: f64::from_bits(sens) };
+                    let e = info.to_enc_bytes().to_vec();
+                    (HybridReport::Conversion(HybridConversionReport { match_key, value: Replicated::<$v>::deserialize(GenericArray::from_slice(btt)).unwrap(), info }), e)
+                };
+                let bytes = report.encrypt(kid, &reg, rng).unwrap();
+                let enc = Enc::try_from(Bytes::from(bytes.clone())).unwrap();
+                let log = vec![
+                    format!("{k}:{}:{}:{}:{}", hex(&info_enc), hex(mk), hex(enc.encap_key_mk()), hex(enc.mk_ciphertext())),
+                    format!("{k}:{}:{}:{}:{}", hex(&info_enc), hex(btt), hex(enc.encap_key_btt()), hex(enc.btt_ciphertext())),
+                ];
+                (bytes, log)
+            }
+
+            pub fn stream(reg: &Reg, chunks: Vec<Vec<u8>>) -> String {
+                let body = BodyStream::from_bytes_stream(futures::stream::iter(
+                    chunks.into_iter().map(|c| Ok::<Bytes, BoxError>(Bytes::from(c))),
+                ));
+                let fut = LengthDelimitedStream::<Enc, _>::new(body)
+                    .map_err(Into::<Error>::into)
+                    .try_flatten_iters()
+                    .map(|r| r.and_then(|enc| enc.decrypt(reg).map_err(Into::<Error>::into)))
+                    .try_collect::<Vec<_>>();
+                match block_on_timeout(20, fut) {
+                    Err(t) => t,
+                    Ok(Err(_)) => "err".into(),
+                    Ok(Ok(reports)) => {
+                        let mut s = format!("ok {}", reports.len());
+                        for r in &reports {
+                            s.push_str(" | ");
+                            s.push_str(&report_str(r));
+                        }
+                        s
+                    }
+                }
+            }
+        }
+    };
+}
+
+impl_ty!(t8_3, BA8, BA3);
+impl_ty!(t32_7, BA32, BA7);
+
+macro_rules! dispatch {
+    ($ty:expr, $f:ident ( $($a:expr),* )) => {
+        match $ty {
+            "8_3" => t8_3::$f($($a),*),
+            "32_7" => t32_7::$f($($a),*),
+            t => panic!("harness: unknown type pair {t}"),
+        }
+    };
+}
+
+fn exec_info(kind: &str, bytes: &[u8]) -> String {
+    match kind {
+        "imp" => match HybridImpressionInfo::from_bytes(bytes) {
+            Ok(i) => format!("ok {} tobytes={} enc={}", i.key_id, hex(&i.to_bytes()), hex(&i.to_enc_bytes())),
+            Err(e) => err_str(&e),
+        },
+        "conv" => match HybridConversionInfo::from_bytes(bytes) {
+            Ok(i) => format!("ok {} tobytes={} enc={}", conv_info_str(&i), hex(&i.to_bytes()), hex(&i.to_enc_bytes())),
+            Err(e) => err_str(&e),
+        },
+        k => panic!("harness: unknown info kind {k}"),
+    }
+}
+
+fn exec_infonew(t: &[&str]) -> String {
+    let key_id: u8 = t[0].parse().unwrap();
+    let site_bytes = unhex(t[1]);
+    let site = std::str::from_utf8(&site_bytes).expect("harness: site must be UTF-8");
+    let info = match HybridConversionInfo::new(key_id, site, t[2].parse().unwrap(), f64_of(t[3]), f64_of(t[4])) {
+        Ok(i) => i,
+        Err(e) => return err_str(&e.into()),
+    };
+    let bytes = info.to_bytes();
+    let back = match guarded(|| HybridConversionInfo::from_bytes(&bytes)) {
+        Err(p) => p,
+        Ok(Err(e)) => err_str(&e),
+        Ok(Ok(i2)) => {
+            // compare through the canonical string (floats by bit pattern)
+            if conv_info_str(&i2) == conv_info_str(&info) { "same".into() } else { format!("diff {}", conv_info_str(&i2)) }
+        }
+    };
+    format!("ok bytelen={} tobytes={} enc={} back={}", bytes.len(), hex(&bytes), hex(&info.to_enc_bytes()), back)
+}
+
+pub fn exec(req: &str) -> String {
+    let t: Vec<&str> = req.split(' ').collect();
+    match t[0] {
+        "c10.parse" => {
+            let reg = Reg::parse(t[2]);
+            dispatch!(t[1], parse(&reg, unhex(t[4])))
+        }
+        "c10.flip" => {
+            let reg = Reg::parse(t[2]);
+            dispatch!(t[1], parse(&reg, flip(unhex(t[4]), t[5].parse().unwrap())))
+        }
+        "c10.rt" => {
+            let reg = Reg::parse(t[4]);
+            dispatch!(t[1], roundtrip(t[2], t[3].parse().unwrap(), &reg, &unhex(t[5]), &unhex(t[6]), &unhex(t[7]),
+                t[8].parse().unwrap(), f64_of(t[9]), f64_of(t[10]), t[11].parse().unwrap()))
+        }
+        "c10.info" => exec_info(t[1], &unhex(t[2])),
+        "c10.infonew" => exec_infonew(&t[1..]),
+        "c10.stream" => {
+            let reg = Reg::parse(t[2]);
+            dispatch!(t[1], stream(&reg, parse_chunks(t[4])))
+        }
+        _ => panic!("harness: unknown request {req}"),
+    }
+}
+
+// ------------------------------------------------------------------ generators
+
+/// Everything sealed so far (the ideal-AEAD table handed to the model).
+#[derive(Default, Clone)]
+struct Log(Vec<String>);
+
+impl Log {
+    fn show(&self) -> String {
+        if self.0.is_empty() { "-".into() } else { self.0.join(",") }
+    }
+}
+
+/// Seal `plain` to base key `k` under `info` with the real HPKE code; returns (enc, ct‖tag).
+fn seal(log: &mut Log, k: usize, plain: &[u8], info: &[u8], rng: &mut Rng) -> (Vec<u8>, Vec<u8>) {
+    let mut p = plain.to_vec();
+    let (enc, ct, tag) = seal_in_place(&base_keys()[k].1, &mut p, info, rng).unwrap();
+    let enc = enc.to_bytes().to_vec();
+    let mut c = ct.to_vec();
+    c.extend_from_slice(&tag.to_bytes());
+    log.0.push(format!("{k}:{}:{}:{}:{}", hex(info), hex(plain), hex(&enc), hex(&c)));
+    (enc, c)
+}
+
+/// The `DOMAIN ‖ HELPER_ORIGIN` prefix of every HPKE info string, taken from the real code.
+fn enc_prefix() -> Vec<u8> {
+    let b = HybridImpressionInfo::new(0).to_enc_bytes();
+    b[..b.len() - 1].to_vec()
+}
+
+#[derive(Clone)]
+struct Spec {
+    evt: u8,
+    seal_key: usize,
+    key_id_byte: u8,
+    mk: Vec<u8>,
+    btt: Vec<u8>,
+    /// bytes placed after the key identifier
+    info_wire: Vec<u8>,
+    /// HPKE info the sender used
+    info_enc: Vec<u8>,
+}
+
+fn conv_wire(site: &[u8], kid: u8, ts: u64, eps: u64, sens: u64) -> (Vec<u8>, Vec<u8>) {
+    let mut tailv = vec![kid];
+    tailv.extend_from_slice(&ts.to_be_bytes());
+    tailv.extend_from_slice(&eps.to_be_bytes());
+    tailv.extend_from_slice(&sens.to_be_bytes());
+    let mut wire = site.to_vec();
+    wire.push(0);
+    wire.extend_from_slice(&tailv);
+    let mut enc = enc_prefix();
+    enc.extend_from_slice(site);
+    enc.extend_from_slice(&tailv);
+    (wire, enc)
+}
+
+fn imp_wire(kid: u8) -> (Vec<u8>, Vec<u8>) {
+    let mut enc = enc_prefix();
+    enc.push(kid);
+    (vec![kid], enc)
+}
+
+fn build(log: &mut Log, s: &Spec, rng: &mut Rng) -> Vec<u8> {
+    let (e1, c1) = seal(log, s.seal_key, &s.mk, &s.info_enc, rng);
+    let (e2, c2) = seal(log, s.seal_key, &s.btt, &s.info_enc, rng);
+    let mut r = vec![s.evt];
+    r.extend_from_slice(&e1);
+    r.extend_from_slice(&c1);
+    r.extend_from_slice(&e2);
+    r.extend_from_slice(&c2);
+    r.push(s.key_id_byte);
+    r.extend_from_slice(&s.info_wire);
+    r
+}
+
+fn btt_size(ty: &str, evt: u8) -> usize {
+    match (ty, evt) {
+        ("8_3", 0) => t8_3::BK_SIZE,
+        ("8_3", _) => t8_3::V_SIZE,
+        ("32_7", 0) => t32_7::BK_SIZE,
+        ("32_7", _) => t32_7::V_SIZE,
+        _ => unreachable!(),
+    }
+}
+
+fn btt_bits(ty: &str, evt: u8) -> u32 {
+    match (ty, evt) {
+        ("8_3", 0) => 8,
+        ("8_3", _) => 3,
+        ("32_7", 0) => 32,
+        ("32_7", _) => 7,
+        _ => unreachable!(),
+    }
+}
+
+/// A canonical random share of the breakdown-key / value type (padding bits zero).
+fn rand_btt(ty: &str, evt: u8, rng: &mut Rng) -> Vec<u8> {
+    let n = btt_size(ty, evt);
+    let bits = btt_bits(ty, evt);
+    let half = n / 2;
+    let mut v = rng.bytes(n);
+    for h in 0..2 {
+        for i in 0..half {
+            let lo = 8 * i as u32;
+            let keep = bits.saturating_sub(lo).min(8);
+            let mask = if keep == 8 { 0xff } else { (1u16 << keep) as u8 - 1 };
+            v[h * half + i] &= mask;
+        }
+    }
+    v
+}
+
+fn honest_spec(ty: &str, evt: u8, kid: u8, site: &[u8], ts: u64, eps: u64, sens: u64, rng: &mut Rng) -> Spec {
+    let (info_wire, info_enc) = if evt == 0 { imp_wire(kid) } else { conv_wire(site, kid, ts, eps, sens) };
+    Spec { evt, seal_key: usize::from(kid) % N_BASE_KEYS, key_id_byte: kid, mk: rng.bytes(16), btt: rand_btt(ty, evt, rng), info_wire, info_enc }
+}
+
+/// An honest record produced by the real encryption path (site must be a `str`; NUL / non-ASCII allowed
+/// because the info is built as a struct literal), logged for the model's ideal AEAD.
+#[allow(clippy::too_many_arguments)]
+fn real_record(ty: &str, log: &mut Log, evt: u8, kid: u8, site: &str, ts: u64, eps: u64, sens: u64, rng: &mut Rng) -> Vec<u8> {
+    let mk = rng.bytes(16);
+    let btt = rand_btt(ty, evt, rng);
+    let (bytes, entries) = dispatch!(ty, encrypt_real(evt, kid, &mk, &btt, site, ts, eps, sens, rng));
+    log.0.extend(entries);
+    bytes
+}
+
+const F64_PATTERNS: [u64; 10] = [
+    0,                       // +0.0
+    0x8000_0000_0000_0000,   // -0.0
+    0x7ff0_0000_0000_0000,   // +inf
+    0xfff0_0000_0000_0000,   // -inf
+    0x7ff8_0000_0000_0000,   // NaN
+    0x7ff0_0000_0000_0001,   // signalling NaN
+    0xffff_ffff_ffff_ffff,   // NaN, all ones
+    1,                       // smallest subnormal
+    0x3ff0_0000_0000_0000,   // 1.0
+    0x0010_0000_0000_0000,   // smallest normal
+];
+
+fn ascii_site(n: usize, rng: &mut Rng) -> Vec<u8> {
+    (0..n).map(|_| 1 + (rng.below(127) as u8)).collect()
+}
+
+fn gen_parse(rng: &mut Rng, thorough: bool) -> Vec<String> {
+    let mut out = vec![];
+    let reg_full = "0,1,2,3";
+    for ty in ["8_3", "32_7"] {
+        let push = |out: &mut Vec<String>, reg: &str, log: &Log, rec: &[u8]| {
+            out.push(format!("c10.parse {ty} {reg} {} {}", log.show(), hex(rec)));
+        };
+        // empty and one-byte records, every event-type byte
+        let empty_log = Log::default();
+        push(&mut out, reg_full, &empty_log, &[]);
+        for b in 0..=255u8 {
+            push(&mut out, reg_full, &empty_log, &[b]);
+        }
+        // valid records of both kinds; all truncations
+        let mut log = Log::default();
+        let imp = real_record(ty, &mut log, 0, 0, "", 0, 0, 0, rng);
+        let conv0 = real_record(ty, &mut log, 1, 0, "", 0, 0, 0, rng);
+        let conv2 = real_record(ty, &mut log, 1, 1, "ab", 1_729_707_432, 0x4014_0000_0000_0000, 0x3ff1_9999_9999_999a, rng);
+        for rec in [&imp, &conv0, &conv2] {
+            for n in 0..=rec.len() {
+                push(&mut out, reg_full, &log, &rec[..n]);
+            }
+            // trailing extra bytes
+            for extra in [1usize, 2, 25, 26] {
+                let mut r = rec.clone();
+                r.extend(rng.bytes(extra));
+                push(&mut out, reg_full, &log, &r);
+                let mut r = rec.clone();
+                r.extend(vec![0u8; extra]);
+                push(&mut out, reg_full, &log, &r);
+            }
+            // every event-type byte in front of an otherwise valid record
+            for b in 0..=255u8 {
+                let mut r = rec.clone();
+                r[0] = b;
+                push(&mut out, reg_full, &log, &r);
+            }
+            // key identifier byte: every value, several registries
+            let info_len = if rec[0] == 0 { 1 } else if std::ptr::eq(rec, &conv0) { 26 } else { 28 };
+            let koff = rec.len() - info_len - 1;
+            for kid in [0u8, 1, 2, 3, 4, 127, 128, 255] {
+                for reg in ["-", "0", "0,1", reg_full, "1,0,3,2", "0,0,0,0", "1,1"] {
+                    let mut r = rec.clone();
+                    r[koff] = kid;
+                    push(&mut out, reg, &log, &r);
+                }
+            }
+            // key id inside the info
+            for kid in [0u8, 1, 255] {
+                let mut r = rec.clone();
+                let ioff = if r[0] == 0 { koff + 1 } else { koff + 1 + (info_len - 25) };
+                r[ioff] = kid;
+                push(&mut out, reg_full, &log, &r);
+            }
+        }
+        // site-domain lengths incl. NUL / non-ASCII / invalid UTF-8, extreme timestamps and floats
+        let mut sites: Vec<Vec<u8>> = vec![];
+        for n in [0usize, 1, 2, 127, 255] {
+            sites.push(ascii_site(n, rng));
+            if n > 0 {
+                let mut s = ascii_site(n, rng);
+                let p = rng.usize_below(n);
+                s[p] = 0; // NUL inside the site (F7)
+                sites.push(s);
+                let mut s = ascii_site(n, rng);
+                s[n - 1] = 0;
+                sites.push(s);
+                let mut s = ascii_site(n, rng);
+                s[0] = 0;
+                sites.push(s);
+                let mut s = ascii_site(n, rng);
+                let p = rng.usize_below(n);
+                s[p] = 0x80 | (rng.below(128) as u8); // not UTF-8 on its own (mostly)
+                sites.push(s);
+            }
+        }
+        sites.push("é".as_bytes().to_vec());
+        sites.push("例え.jp".as_bytes().to_vec());
+        sites.push("\u{10FFFF}x".as_bytes().to_vec());
+        sites.push(vec![0xC0, 0x80]); // overlong NUL
+        sites.push(vec![0xED, 0xA0, 0x80]); // surrogate
+        sites.push(vec![0xF4, 0x90, 0x80, 0x80]); // > U+10FFFF
+        sites.push(vec![0xE2, 0x82]); // truncated sequence
+        sites.push(vec![0xFF]);
+        for (j, site) in sites.iter().enumerate() {
+            let mut log = Log::default();
+            let ts = [0u64, 1, u64::MAX, u64::MAX - 1, 1 << 63, 0x0100_0000_0000_0000, 0x00ff_ffff_ffff_ffff][j % 7];
+            let eps = F64_PATTERNS[j % 10];
+            let sens = F64_PATTERNS[(j / 2 + 3) % 10];
+            let kid = (j % 4) as u8;
+            let rec = build(&mut log, &honest_spec(ty, 1, kid, site, ts, eps, sens, rng), rng);
+            push(&mut out, reg_full, &log, &rec);
+        }
+        // timestamps / floats whose big-endian bytes contain or are all zero / 0xff
+        for j in 0..(if thorough { 200 } else { 24 }) {
+            let mut log = Log::default();
+            let pick = |rng: &mut Rng| match rng.below(4) {
+                0 => *rng.pick(&F64_PATTERNS),
+                1 => rng.next_u64() & 0x00ff_00ff_00ff_00ff,
+                2 => rng.next_u64() | 0xff00_0000_0000_00ff,
+                _ => rng.next_u64(),
+            };
+            let (ts, eps, sens) = (pick(rng), pick(rng), pick(rng));
+            let n = rng.usize_below(40);
+            let rec = build(&mut log, &honest_spec(ty, 1, (j % 4) as u8, &ascii_site(n, rng), ts, eps, sens, rng), rng);
+            push(&mut out, reg_full, &log, &rec);
+        }
+        // crafted infos: no delimiter, short / long tails, impression info of length 0 / 2, info key id != key byte
+        let mut crafted: Vec<Spec> = vec![];
+        let base_c = honest_spec(ty, 1, 0, b"example.com", 7, F64_PATTERNS[8], F64_PATTERNS[8], rng);
+        let base_i = honest_spec(ty, 0, 0, &[], 0, 0, 0, rng);
+        for cut in [1usize, 2, 8, 24, 25, 26, 27, 36, 37] {
+            let mut s = base_c.clone();
+            let n = s.info_wire.len();
+            if cut <= n {
+                s.info_wire.truncate(n - cut);
+                crafted.push(s);
+            }
+        }
+        for extra in [1usize, 2, 25] {
+            let mut s = base_c.clone();
+            s.info_wire.extend(rng.bytes(extra));
+            crafted.push(s);
+        }
+        {
+            let mut s = base_c.clone();
+            s.info_wire = s.info_wire.iter().map(|&b| if b == 0 { 1 } else { b }).collect(); // no delimiter at all
+            crafted.push(s);
+            let mut s = base_c.clone();
+            s.info_wire = vec![0];
+            crafted.push(s);
+            let mut s = base_c.clone();
+            s.info_wire = vec![0; 26];
+            s.info_enc = conv_wire(&[], 0, 0, 0, 0).1;
+            crafted.push(s);
+            let mut s = base_i.clone();
+            s.info_wire = vec![];
+            crafted.push(s);
+            let mut s = base_i.clone();
+            s.info_wire = vec![0, 0];
+            crafted.push(s);
+            let mut s = base_i.clone();
+            s.info_wire = vec![0, 7, 7, 7];
+            crafted.push(s);
+            // sender used key id 1 in the info but 0 in the key-identifier byte (sealed to key 0)
+            let mut s = honest_spec(ty, 0, 1, &[], 0, 0, 0, rng);
+            s.key_id_byte = 0;
+            s.seal_key = 0;
+            crafted.push(s);
+            let mut s = honest_spec(ty, 1, 2, b"x.y", 5, 6, 7, rng);
+            s.key_id_byte = 3;
+            s.seal_key = 3;
+            crafted.push(s);
+            // sealed under a different info than the one on the wire
+            let mut s = base_c.clone();
+            s.info_enc = conv_wire(b"example.con", 0, 7, F64_PATTERNS[8], F64_PATTERNS[8]).1;
+            crafted.push(s);
+            let mut s = base_i.clone();
+            s.info_enc = imp_wire(1).1;
+            crafted.push(s);
+            // impression sealed with a conversion-style info and vice versa
+            let mut s = base_i.clone();
+            s.info_enc = base_c.info_enc.clone();
+            crafted.push(s);
+            // cross-kind: event byte says the other kind
+            let mut s = base_i.clone();
+            s.evt = 1;
+            crafted.push(s);
+            let mut s = base_c.clone();
+            s.evt = 0;
+            crafted.push(s);
+            // conversion whose site starts with the key id byte, relabelled as an impression with 1-byte info
+            let mut s = base_c.clone();
+            s.evt = 0;
+            s.info_wire = vec![0];
+            crafted.push(s);
+            // padding bits set in the breakdown-key / value plaintext
+            for evt in [0u8, 1] {
+                let n = btt_size(ty, evt);
+                for pos in [0usize, n / 2 - 1, n / 2, n - 1] {
+                    let mut s = if evt == 0 { base_i.clone() } else { base_c.clone() };
+                    s.btt = vec![0; n];
+                    s.btt[pos] = 0x80;
+                    crafted.push(s);
+                    let mut s = if evt == 0 { base_i.clone() } else { base_c.clone() };
+                    s.btt = vec![0xff; n];
+                    crafted.push(s);
+                }
+            }
+            // plaintexts of the wrong size (shifts the layout)
+            for (a, b) in [(15usize, 2usize), (17, 2), (16, 1), (16, 3), (0, 0), (2, 16)] {
+                let mut s = base_c.clone();
+                s.mk = rng.bytes(a);
+                s.btt = rng.bytes(b);
+                crafted.push(s);
+            }
+        }
+        for s in &crafted {
+            let mut log = Log::default();
+            let rec = build(&mut log, s, rng);
+            push(&mut out, reg_full, &log, &rec);
+            push(&mut out, "1,2,3,0", &log, &rec);
+        }
+        // swapped / spliced ciphertexts between two honest records
+        {
+            let mut log = Log::default();
+            let a = build(&mut log, &honest_spec(ty, 1, 0, b"s.com", 1, 2, 3, rng), rng);
+            let b = build(&mut log, &honest_spec(ty, 1, 0, b"s.com", 1, 2, 3, rng), rng);
+            let c = build(&mut log, &honest_spec(ty, 1, 0, b"t.com", 1, 2, 3, rng), rng);
+            let v = btt_size(ty, 1);
+            let mk_end = 1 + 32 + 16 + 16;
+            let btt_end = mk_end + 32 + 16 + v;
+            let mut r = a.clone();
+            r[1..mk_end].copy_from_slice(&b[1..mk_end]); // mk of b, value of a: same info => accepted
+            push(&mut out, reg_full, &log, &r);
+            let mut r = a.clone();
+            r[mk_end..btt_end].copy_from_slice(&c[mk_end..btt_end]); // value sealed under another site
+            push(&mut out, reg_full, &log, &r);
+            let mut r = a.clone();
+            r[1..33].copy_from_slice(&b[1..33]); // encapsulated key of b with ciphertext of a
+            push(&mut out, reg_full, &log, &r);
+            let mut r = a.clone();
+            r[mk_end - 16..mk_end].copy_from_slice(&b[mk_end - 16..mk_end]); // tag of b
+            push(&mut out, reg_full, &log, &r);
+        }
+        // garbage of random length
+        let max_len = 420;
+        for _ in 0..(if thorough { 4000 } else { 300 }) {
+            let n = match rng.below(4) {
+                0 => rng.usize_below(8),
+                1 => 90 + rng.usize_below(60),
+                _ => rng.usize_below(max_len),
+            };
+            let mut r = rng.bytes(n);
+            if n > 0 && rng.below(4) != 0 {
+                r[0] = rng.below(2) as u8;
+            }
+            if n > 0 && rng.bool() {
+                // plausible key id and a NUL somewhere so that the info parser gets further
+                let p = rng.usize_below(n);
+                r[p] = 0;
+            }
+            push(&mut out, *rng.pick(&["-", "0", reg_full]), &empty_log, &r);
+        }
+    }
+    out
+}
+
+fn gen_flip(rng: &mut Rng, thorough: bool) -> Vec<String> {
+    let mut out = vec![];
+    let tys: &[&str] = if thorough { &["8_3", "32_7"] } else { &["8_3"] };
+    for ty in tys {
+        let site64 = String::from_utf8(ascii_site(64, rng)).unwrap();
+        let mut specs: Vec<(u8, u8, &str, u64, u64, u64)> = vec![
+            (0, 0, "", 0, 0, 0),
+            (1, 0, "meta.com", 1_729_707_432, 0x4014_0000_0000_0000, 0x3ff1_9999_9999_999a),
+        ];
+        if thorough {
+            specs.push((0, 3, "", 0, 0, 0));
+            specs.push((1, 2, "", 0, 0, 0));
+            specs.push((1, 1, &site64, u64::MAX, F64_PATTERNS[4], F64_PATTERNS[1]));
+        }
+        for &(evt, kid, site, ts, eps, sens) in &specs {
+            let mut log = Log::default();
+            let rec = real_record(ty, &mut log, evt, kid, site, ts, eps, sens, rng);
+            out.push(format!("c10.parse {ty} 0,1,2,3 {} {}", log.show(), hex(&rec)));
+            for bit in 0..8 * rec.len() {
+                out.push(format!("c10.flip {ty} 0,1,2,3 {} {} {bit}", log.show(), hex(&rec)));
+            }
+        }
+    }
+    out
+}
+
+fn gen_roundtrip(rng: &mut Rng, thorough: bool) -> Vec<String> {
+    let mut out = vec![];
+    for ty in ["8_3", "32_7"] {
+        let mut push = |kind: &str, kid: u8, reg: &str, mk: &[u8], btt: &[u8], site: &[u8], ts: u64, eps: u64, sens: u64, seed: u64| {
+            out.push(format!("c10.rt {ty} {kind} {kid} {reg} {} {} {} {ts} {eps} {sens} {seed}", hex(mk), hex(btt), hex(site)));
+        };
+        // boundaries: zero / all-ones shares, every base key, missing keys
+        for kid in 0..6u8 {
+            for reg in ["0,1,2,3", "0", "-", "3,2,1,0"] {
+                push("imp", kid, reg, &[0; 16], &vec![0; btt_size(ty, 0)], &[], 0, 0, 0, 1);
+                push("conv", kid, reg, &[0xff; 16], &vec![0; btt_size(ty, 1)], b"a.b", u64::MAX, F64_PATTERNS[4], F64_PATTERNS[1], 2);
+            }
+        }
+        push("imp", 0, "0", &[0xff; 16], &vec![0xff; btt_size(ty, 0)], &[], 0, 0, 0, 3);
+        push("imp", 255, "0,1,2,3", &[1; 16], &vec![0; btt_size(ty, 0)], &[], 0, 0, 0, 3);
+        // site lengths incl. NUL and non-ASCII (valid UTF-8 only: `new` takes &str)
+        for n in [0usize, 1, 2, 127, 255] {
+            let s = ascii_site(n, rng);
+            push("conv", 0, "0,1", &rng.bytes(16), &rand_btt(ty, 1, rng), &s, rng.next_u64(), rng.next_u64(), rng.next_u64(), rng.next_u64());
+            if n > 0 {
+                for p in [0, n / 2, n - 1] {
+                    let mut z = s.clone();
+                    z[p] = 0;
+                    push("conv", 1, "0,1", &rng.bytes(16), &rand_btt(ty, 1, rng), &z, 1, 2, 3, rng.next_u64());
+                }
+            }
+        }
+        push("conv", 0, "0", &rng.bytes(16), &rand_btt(ty, 1, rng), "é.com".as_bytes(), 1, 2, 3, 9);
+        push("conv", 0, "0", &rng.bytes(16), &rand_btt(ty, 1, rng), "\u{7f}".as_bytes(), 1, 2, 3, 9);
+        push("conv", 0, "0", &rng.bytes(16), &rand_btt(ty, 1, rng), "\u{80}".as_bytes(), 1, 2, 3, 9);
+        for &e in &F64_PATTERNS {
+            for &t in &[0u64, u64::MAX, 1 << 56, 0xff] {
+                push("conv", 2, "0,1,2", &rng.bytes(16), &rand_btt(ty, 1, rng), b"x", t, e, e ^ 1, rng.next_u64());
+            }
+        }
+        for _ in 0..(if thorough { 3000 } else { 150 }) {
+            let kid = rng.below(4) as u8;
+            if rng.bool() {
+                push("imp", kid, "0,1,2,3", &rng.bytes(16), &rand_btt(ty, 0, rng), &[], 0, 0, 0, rng.next_u64());
+            } else {
+                let n = rng.usize_below(64);
+                push("conv", kid, "0,1,2,3", &rng.bytes(16), &rand_btt(ty, 1, rng), &ascii_site(n, rng), rng.next_u64(), rng.next_u64(), rng.next_u64(), rng.next_u64());
+            }
+        }
+    }
+    out
+}
+
+fn gen_info(rng: &mut Rng, thorough: bool) -> Vec<String> {
+    let mut out = vec![];
+    // impression info: every length 0..3, every first byte
+    out.push("c10.info imp -".to_string());
+    for b in 0..=255u8 {
+        out.push(format!("c10.info imp {}", hex(&[b])));
+    }
+    out.push("c10.info imp 0000".to_string());
+    out.push("c10.info imp 01ff02".to_string());
+    // conversion info
+    out.push("c10.info conv -".to_string());
+    out.push("c10.info conv 00".to_string());
+    out.push("c10.info conv 41".to_string());
+    for n in 0..=60usize {
+        out.push(format!("c10.info conv {}", hex(&vec![0u8; n])));
+        out.push(format!("c10.info conv {}", hex(&vec![0x41u8; n])));
+        let mut v = vec![0x41u8; n];
+        if n > 0 {
+            v[n / 2] = 0;
+        }
+        out.push(format!("c10.info conv {}", hex(&v)));
+    }
+    let (w, _) = conv_wire(b"example.com", 3, 77, 88, 99);
+    for n in 0..=w.len() + 2 {
+        let mut v = w.clone();
+        v.resize(n, 0x5a);
+        out.push(format!("c10.info conv {}", hex(&v)));
+    }
+    for site in [&b""[..], b"a", &[0xC3, 0xA9], &[0xC3], &[0xC0, 0x80], &[0xED, 0xA0, 0x80], &[0xED, 0x9F, 0xBF], &[0xF4, 0x8F, 0xBF, 0xBF], &[0xF4, 0x90, 0x80, 0x80], &[0xF0, 0x90, 0x80, 0x80], &[0xF0, 0x8F, 0x80, 0x80], &[0xE0, 0xA0, 0x80], &[0xE0, 0x9F, 0x80], &[0x80], &[0xFF], &[0xF8, 0x88, 0x80, 0x80, 0x80]] {
+        let (w, _) = conv_wire(site, 0, 1, 2, 3);
+        out.push(format!("c10.info conv {}", hex(&w)));
+    }
+    for _ in 0..(if thorough { 5000 } else { 400 }) {
+        let n = rng.usize_below(48);
+        let mut v = rng.bytes(n);
+        if rng.bool() {
+            for b in &mut v {
+                *b &= 0x7f;
+            }
+        }
+        if n > 0 && rng.below(3) != 0 {
+            let p = rng.usize_below(n);
+            v[p] = 0;
+        }
+        if rng.bool() {
+            // well-formed tail after whatever the site is
+            v.push(0);
+            v.extend(rng.bytes(25));
+        }
+        out.push(format!("c10.info conv {}", hex(&v)));
+    }
+    // HybridConversionInfo::new: ASCII / NUL / non-ASCII sites
+    let mut sites: Vec<Vec<u8>> = vec![vec![], vec![0], b"a".to_vec(), vec![0x7f], b"a\0b".to_vec(), b"\0ab".to_vec(), b"ab\0".to_vec(), "é".as_bytes().to_vec(), "a\u{80}".as_bytes().to_vec()];
+    for n in [1usize, 2, 127, 255] {
+        sites.push(ascii_site(n, rng));
+        let mut s = ascii_site(n, rng);
+        let p = rng.usize_below(n);
+        s[p] = 0;
+        sites.push(s);
+    }
+    for _ in 0..(if thorough { 500 } else { 40 }) {
+        let n = rng.usize_below(32);
+        let mut s: Vec<u8> = (0..n).map(|_| rng.below(128) as u8).collect();
+        if n > 0 && rng.bool() {
+            let p = rng.usize_below(n);
+            s[p] = 0;
+        }
+        sites.push(s);
+    }
+    for (j, s) in sites.iter().enumerate() {
+        let ts = [0u64, u64::MAX, 1 << 56][j % 3];
+        out.push(format!("c10.infonew {} {} {ts} {} {}", j % 256, hex(s), F64_PATTERNS[j % 10], F64_PATTERNS[(j + 5) % 10]));
+    }
+    out
+}
+
+fn show_chunks(chunks: &[Vec<u8>]) -> String {
+    if chunks.is_empty() {
+        return "-".into();
+    }
+    chunks.iter().map(|c| if c.is_empty() { "e".to_string() } else { hex(c) }).collect::<Vec<_>>().join(",")
+}
+
+fn gen_stream(rng: &mut Rng, thorough: bool) -> Vec<String> {
+    let mut out = vec![];
+    let ty = "8_3";
+    let reg = "0,1,2,3";
+    let mut log = Log::default();
+    let recs: Vec<Vec<u8>> = vec![
+        real_record(ty, &mut log, 0, 0, "", 0, 0, 0, rng),
+        real_record(ty, &mut log, 1, 1, "meta.com", 5, 6, 7, rng),
+        real_record(ty, &mut log, 0, 2, "", 0, 0, 0, rng),
+    ];
+    let frame = |r: &[u8]| {
+        let mut v = u16::try_from(r.len()).unwrap().to_le_bytes().to_vec();
+        v.extend_from_slice(r);
+        v
+    };
+    let mut push = |chunks: &[Vec<u8>]| out.push(format!("c10.stream {ty} {reg} {} {}", log.show(), show_chunks(chunks)));
+    let good: Vec<u8> = recs.iter().flat_map(|r| frame(r)).collect();
+    push(&[]);
+    push(&[vec![]]);
+    push(&[good.clone()]);
+    // zero-length records: alone, first, middle, last, several
+    push(&[vec![0, 0]]);
+    push(&[vec![0], vec![0]]);
+    push(&[[vec![0, 0], good.clone()].concat()]);
+    push(&[[frame(&recs[0]), vec![0, 0], frame(&recs[1])].concat()]);
+    push(&[[good.clone(), vec![0, 0]].concat()]);
+    push(&[good.clone(), vec![0, 0]]);
+    push(&[vec![0, 0, 0, 0, 0, 0]]);
+    // one-byte records of every event type
+    for b in [0u8, 1, 2, 255] {
+        push(&[vec![1, 0, b]]);
+        push(&[[good.clone(), vec![1, 0, b]].concat()]);
+    }
+    // truncated: stream ends inside a length prefix / inside a record
+    for cut in [1usize, 2, 3, 50, good.len() - 1, good.len() - 2, frame(&recs[0]).len() + 1] {
+        push(&[good[..cut].to_vec()]);
+    }
+    // length prefix shorter / longer than the record
+    for (i, r) in recs.iter().enumerate() {
+        for d in [-2i32, -1, 1, 2] {
+            let n = (r.len() as i32 + d) as u16;
+            let mut v = n.to_le_bytes().to_vec();
+            v.extend_from_slice(r);
+            if i == 0 {
+                v.extend(frame(&recs[1]));
+            }
+            push(&[v]);
+        }
+    }
+    // every truncation of the first record, length-delimited
+    for n in 0..recs[0].len() {
+        push(&[frame(&recs[0][..n])]);
+    }
+    for n in (0..recs[1].len()).step_by(if thorough { 1 } else { 5 }) {
+        push(&[[frame(&recs[0]), frame(&recs[1][..n])].concat()]);
+    }
+    // chunked delivery
+    for _ in 0..(if thorough { 300 } else { 40 }) {
+        let mut body = vec![];
+        for _ in 0..rng.usize_below(5) {
+            match rng.below(6) {
+                0 => body.extend(vec![0, 0]),
+                1 => {
+                    let r: &Vec<u8> = rng.pick(&recs[..]);
+                    let n = rng.usize_below(r.len());
+                    body.extend(frame(&r[..n]));
+                }
+                _ => { let r: &Vec<u8> = rng.pick(&recs[..]); body.extend(frame(r)) }
+            }
+        }
+        let mut chunks = vec![];
+        let mut i = 0;
+        while i < body.len() {
+            let m = if rng.bool() { 4 } else { 200 };
+            let n = 1 + rng.usize_below(m);
+            let j = (i + n).min(body.len());
+            chunks.push(body[i..j].to_vec());
+            i = j;
+        }
+        push(&chunks);
+    }
+    out
+}
+
+#[test]
+fn verif_c10_parse() {
+    run_suite("c10_parse", gen_parse, exec);
+}
+
+#[test]
+fn verif_c10_info() {
+    run_suite("c10_info", gen_info, exec);
+}
+
+#[test]
+fn verif_c10_flip() {
+    run_suite("c10_flip", gen_flip, exec);
+}
+
+#[test]
+fn verif_c10_roundtrip() {
+    run_suite("c10_roundtrip", gen_roundtrip, exec);
+}
+
+#[test]
+fn verif_c10_stream() {
+    run_suite("c10_stream", gen_stream, exec);
+}
